@@ -8,10 +8,15 @@
    every step that brought a data / sync / ack frame — and the step that reported Connect — lies at least
    active_timeout_ms back, the deadline being exactly active_timeout_ms after a step in which a frame from the
    server arrived and a silent step at or past it reporting the timeout, (c) while disconnecting no earlier than
-   22 s after the step that first sent the Disconnect request, and (d) in no other phase. The server's timers and
-   keepalive sufficiency over whole histories are decided on the implementation by the timers / lifecycle streams
-   with the timeout oracle and through the correspondence under the virtual clock (partial). *)
-From UF Require Import Consts Base Frame Codec Sender HalfConn Endpoint EndpointProofs EndpointTotal HandshakeHistory TimeoutHistory.
+   22 s after the step that first sent the Disconnect request, and (d) in no other phase. Server (ServerTimeouts.v),
+   over whole histories: every SYN+ACK resend timer of a pending entry and every Disconnect resend timer of a
+   closing entry has, at every moment, at least the remaining part of the 22 s budget ahead of it, counted from the
+   step that accepted the connection request / began the disconnect; hence the timer loop gives up on such an
+   attempt (the only place that forgets it and reports Error(Timeout)) no earlier than 22 s after it began, and
+   never while resends are left. The server's active-timeout rule and keepalive sufficiency over whole histories
+   are decided on the implementation by the timers / lifecycle streams with the timeout oracles and through the
+   correspondence under the virtual clock (partial). *)
+From UF Require Import Consts Base Frame Codec Sender Heap HalfConn Endpoint EndpointProofs EndpointTotal HandshakeHistory TimeoutHistory ServerTimeouts.
 
 Theorem C10_client_timer_semantics :
   forall c a now,
@@ -136,7 +141,51 @@ Example C10_closing_timeout_happens :
   match client_step (fst st) 22999 [] with Ok (c', evs, _) => evs = [] | _ => False end.
 Proof. vm_compute. intuition discriminate. Qed.
 
+
+(* ---------- server: handshake and disconnect attempts over whole histories (ServerTimeouts.v) ---------- *)
+Theorem C10_server_timer_budget :
+  forall cfg t0 seed ops,
+  let st := fold_left tstep ops (server_new cfg t0 seed, (fun _ => 0, fun _ => 0)) in
+  fst st = fold_left sv_apply ops (server_new cfg t0 seed) /\
+  forall e, In e (sv_events (fst st)) ->
+    let o := so_state (sv_obj_get (fst st) (rq_uid e)) in
+    rq_uid e < len (sv_objs (fst st)) /\
+    (rq_frag e = 0 -> is_pending o = true ->
+       fst (snd st) (rq_uid e) + 22000 <= rq_time e + 2000 * rq_count e) /\
+    (rq_frag e = 1 -> 2 <= rank o /\
+       (o = SvClosing -> snd (snd st) (rq_uid e) + 22000 <= rq_time e + 2000 * rq_count e)).
+Proof. exact server_timer_budget. Qed.
+Print Assumptions C10_server_timer_budget.
+
+Theorem C10_server_give_up_after_budget :
+  forall s G ev now, okb s G ev = true -> rq_time ev <= now -> rq_count ev = 0 ->
+  (forall ln rn mrr mra reply, so_state (sv_obj_get s (rq_uid ev)) = SvPending ln rn mrr mra reply -> rq_frag ev = 0 ->
+     fst G (rq_uid ev) + 22000 <= now) /\
+  (so_state (sv_obj_get s (rq_uid ev)) = SvClosing -> rq_frag ev = 1 -> snd G (rq_uid ev) + 22000 <= now).
+Proof. exact server_give_up_after_budget. Qed.
+
+Theorem C10_server_no_give_up_with_resends_left :
+  forall s a ev now, 0 < rq_count ev ->
+  is_pending (so_state (sv_obj_get s (rq_uid ev))) = true \/ so_state (sv_obj_get s (rq_uid ev)) = SvClosing ->
+  so_state (sv_obj_get (fst (sv_handle_event s a ev now)) (rq_uid ev)) = so_state (sv_obj_get s (rq_uid ev)) /\
+  ac_events (snd (sv_handle_event s a ev now)) = ac_events a.
+Proof. exact server_no_give_up_with_resends_left. Qed.
+
+(* non-vacuity: a SYN is accepted at server time 50; after ten resends the entry is still pending at 20050 with a
+   timer that expires at 22050 — exactly 22 s after the request — and is given up at the first step past it *)
+Definition ex_scfg := mkSvConfig 4096 32 true ex_ec.
+Definition ex_syn := write_handshake_syn PROTOCOL_VERSION 9 2000000 1000000 1000000.
+Definition ex_sops : list sv_op :=
+  SvStep 1050 [(7, ex_syn)] [77] :: map (fun k => SvStep (1050 + 2000 * k) [] []) [1; 2; 3; 4; 5; 6; 7; 8; 9; 10].
+Example C10_server_handshake_run :
+  let st := fold_left tstep ex_sops (server_new ex_scfg 1000 1, (fun _ => 0, fun _ => 0)) in
+  fst (snd st) 0 = 50 /\ map (fun e => (rq_uid e, rq_frag e, rq_time e, rq_count e)) (sv_events (fst st)) = [(0, 0, 22050, 0)] /\
+  match server_step (fst st) 23049 [] [] with Ok (_, evs, _, _) => evs = [] | _ => False end /\
+  match server_step (fst st) 23050 [] [] with Ok (s', evs, _, _) => evs = [EvError 7 0] /\ sv_events s' = [] | _ => False end.
+Proof. vm_compute. intuition discriminate. Qed.
+
 Check C10_client_handshake_timeout_history.
+Check C10_server_timer_budget.
 Check C10_client_active_timeout_history.
 Check C10_client_active_deadline_exact.
 Check C10_client_closing_timeout_history.
